@@ -135,7 +135,8 @@ Lemma wloop_unlimited R : forall V p rc cnt, recs_ok V -> unlimited rc ->
   WEof (st_of (snd (wfold R p V)) (appends rc (fst (wfold R p V))) (cnt + N.of_nat (length (fst (wfold R p V))))).
 Proof.
   induction V as [|x t IH]; intros p rc cnt OK U.
-  - cbn [raw_of map wloop wfold fst snd]. rewrite (unlimited_need_more _ U). cbn. unfold appends; cbn.
+  - cbn [raw_of map wloop wfold fst snd]. change (w_rc (st_of p rc cnt)) with rc.
+    rewrite (unlimited_need_more _ U). cbn [negb length]. unfold appends; cbn [fold_left].
     f_equal. unfold st_of. f_equal. lia.
   - inversion OK as [|? ? Hx OKt]; subst.
     cbn [raw_of map wloop wfold]. change (w_rc (st_of p rc cnt)) with rc. rewrite (unlimited_need_more _ U). cbn [negb].
@@ -235,6 +236,9 @@ Proof.
       replace (Z.to_nat l - length res)%nat with 0%nat by lia. cbn. rewrite app_nil_r. reflexivity.
 Qed.
 
+Lemma rcv_result_flush rc : rcv_result (rcv_flush rc) = rcv_result rc.
+Proof. destruct rc as [|l r|rr [|x b] ss]; reflexivity. Qed.
+
 Lemma worker_run_limited R V (l : Z) res0 : (0 < l)%Z -> recs_ok V ->
   exists n rc, worker_run R (raw_of V) (RCommon l res0) = WROk n rc /\ rcv_result rc = firstn (Z.to_nat l) (wrun_top R V).
 Proof.
@@ -245,8 +249,5 @@ Proof.
   destruct (wloop R (raw_of V) (st_of w_init (RCommon l []) 0)) as [|st|st]; [contradiction| |].
   - eexists _, _. split; [reflexivity|]. exact HR.
   - eexists _, _. split; [reflexivity|].
-    cbn [final_result] in HR.
-    destruct (w_live st && rcv_need_more (w_rc st)).
-    + unfold w_emit in *. cbn [w_rc] in *. destruct (w_rc st) as [|l' r'|rr bb ss]; cbn in *; exact HR.
-    + destruct (w_rc st) as [|l' r'|rr bb ss]; cbn in *; exact HR.
+    cbn [final_result] in HR. rewrite rcv_result_flush. exact HR.
 Qed.
